@@ -91,9 +91,9 @@ def methods():
             final(self).acq@ <= old(self).acq@ + 1, // [C10]
             %(ERR)s ==> r is Err && wire_same(%(O)s, %(N)s) && !failed(%(N)s), // [C02]
             (!%(ERR)s && %(O)s.acked_protocol_features & 0x2 != 0 && region is Some) ==>
-                reply_outcome(%(O)s, %(N)s, %(flog)s, r is Ok, %(acc)s && %(LX)s.fds.len() == 0 && log_valid(VhostUserLog::decode(%(LX)s.body))), // [C02,C03,C06,C07,C10]
+                reply_outcome(%(O)s, %(N)s, %(flog)s, r is Ok, %(acc)s && %(LX)s.fds.len() == 0 && log_valid(VhostUserLog::decode(%(LX)s.body))), // [C01,C02,C03,C06,C07,C10]
             (!%(ERR)s && !(%(O)s.acked_protocol_features & 0x2 != 0 && region is Some)) ==>
-                (if failed(%(N)s) { r is Err && wire_same(%(O)s, %(N)s) } else { r is Ok && tx1(%(O)s, %(N)s, %(fbase)s) }), // [C02,C07,C10]
+                (if failed(%(N)s) { r is Err && wire_same(%(O)s, %(N)s) } else { r is Ok && tx1(%(O)s, %(N)s, %(fbase)s) }), // [C01,C02,C07,C10]
             state_same(%(O)s, %(N)s), // [C07]
 """ % dict(O=O, N=N, ERR=ERR, flog=flog, fbase=fbase, LX=LX, acc=matches(flog))
     m["set_log_fd"] = ack_contract(ERR, F(7, fds="seq![fd as int]"))
